@@ -870,12 +870,22 @@ func (s *Stream) handshake(addr string, headers []Header, callback func(err erro
 	if err != nil {
 		callback(err, nil)
 	} else {
+		var (
+			herr    error
+			hstream sonic.Stream
+		)
 		s.dial(url, func(err error, stream sonic.Stream) {
 			if err == nil {
 				err = s.upgrade(url, stream, headers)
 			}
-			callback(err, stream)
+			herr, hstream = err, stream
 		})
+		if herr != nil {
+			// A failed handshake must not keep the connection open. This is done after dial returned: its callback
+			// runs inside RawConn.Control, where closing the connection would wait for itself.
+			_ = s.CloseNextLayer()
+		}
+		callback(herr, hstream)
 	}
 }
 
